@@ -10,7 +10,11 @@ Extracted from cargo-typify/src/lib.rs, text unchanged except for the drop list:
     struct CrateSpec              (E2: `struct` widened to `pub struct`, fields to `pub`, so the
                                    harness module can read the parsed fields)
     impl std::str::FromStr for CrateSpec   (with its inner fns is_crate and convert)
-Header written by the extractor: `use std::path::PathBuf; use typify_impl::CrateVers;`
+    convert() [slice]             (E4: the statements that build `settings` from the arguments, from
+                                   `let mut settings = TypeSpaceSettings::default();` to just before
+                                   `let mut type_space = ..`, wrapped as
+                                   `pub fn verif_slice_build_settings(args: &CliArgs) -> TypeSpaceSettings`)
+Header written by the extractor: `use std::path::PathBuf; use typify_impl::{CrateVers, TypeSpaceSettings, UnknownPolicy};`
 (E3: `typify::CrateVers` is a re-export of `typify_impl::CrateVers`; `Result` in the FromStr
 impl is spelled `std::result::Result` because the eyre alias is not imported).
 """
@@ -90,10 +94,24 @@ def extract(repo_dir):
         raise Lost("FromStr::from_str signature changed")
     from_str2 = from_str.replace("fn from_str(s: &str) -> Result<Self, Self::Err>",
                                  "fn from_str(s: &str) -> std::result::Result<Self, Self::Err>")
+    # E4: the settings-building statements of convert() -- from `let mut settings = ..default();`
+    # up to (excluding) `let mut type_space = TypeSpace::new(&settings);` -- as a function
+    conv, spc = take(src, clean, r"^pub fn convert\b", "fn convert")
+    m1 = re.search(r"^    let mut settings = TypeSpaceSettings::default\(\);\n", conv, re.M)
+    m2 = re.search(r"^    let mut type_space = TypeSpace::new\(&settings\);", conv, re.M)
+    if not m1 or not m2 or m2.start() < m1.start():
+        raise Lost("settings-building slice of convert()")
+    slice_text = conv[m1.start():m2.start()].rstrip() + "\n"
+    l1 = spc[0] + conv.count("\n", 0, m1.start())
+    items.append({"item": "convert() [settings-building slice]", "file": "cargo-typify/src/lib.rs",
+                  "lines": "%d-%d" % (l1, l1 + slice_text.count("\n") - 1),
+                  "sha256_repo_text": hashlib.sha256(slice_text.encode()).hexdigest()})
+    build_settings = ("pub fn verif_slice_build_settings(args: &CliArgs) -> TypeSpaceSettings {\n"
+                      + slice_text + "    settings\n}\n")
     lib = ("// GENERATED by /verif/lib/c15_prepare.py from cargo-typify/src/lib.rs -- do not edit.\n"
            "#![allow(dead_code)]\n"
-           "use std::path::PathBuf;\nuse typify_impl::CrateVers;\n\n"
-           + cli2 + "\n\n" + impl_cli2 + "\n\n#[derive(Debug, Clone)]\n" + spec2 + "\n\n" + from_str2 + "\n")
+           "use std::path::PathBuf;\nuse typify_impl::{CrateVers, TypeSpaceSettings, UnknownPolicy};\n\n"
+           + cli2 + "\n\n" + impl_cli2 + "\n\n#[derive(Debug, Clone)]\n" + spec2 + "\n\n" + from_str2 + "\n\n" + build_settings)
     return lib, items
 
 
